@@ -33,3 +33,12 @@ SPEC = {
         "note": "Sampled histories. Chains stay far below 2^16 leaves per pool, so shard-boundary / subtree-root insertion paths are exercised only in the thorough tier's shard-boundary starts (when implemented). Known finding F1 (dependency shardtree 0.7.0 keeps stale annotations on truncation) is recognised by its trigger predicate and reported as KNOWN-FINDING.",
     },
 }
+
+
+def run(tier, seed, fold):
+    import driver
+    driver.standard_run(SPEC, tier, seed, fold)
+    if tier == "thorough":
+        # ThreadSanitizer over the histories (dense ones take the parallel subtree-building path)
+        driver.sanitizer_run(SPEC, "tsan", tier, seed, fold, shards=8, budget_s=420,
+                             per_shard_env=lambda i: {"RAYON_NUM_THREADS": str([2, 4, 16, 8][i % 4])})
